@@ -80,7 +80,11 @@ def run_child(job, workdir, per_scenario_timeout=120):
         if name == "done":
             break
         tail = err[-1500:]
-        if "FATAL:" in err:
+        if "FATAL:" in err and "could not perform rename" in err and "snapshots/tmp-snapshot" in err and "file exists" in err:
+            # Two snapshot files of one node created at the same *virtual* nanosecond get the same
+            # snapshot-<UnixNano> directory name; a real clock does not stand still. Harness artefact.
+            why, kind = "snapshot directory name collision under the frozen virtual clock", "artefact"
+        elif "FATAL:" in err:
             m = re.search(r"FATAL:\s*(.*)", err)
             why = "fatal: " + (m.group(1)[:300] if m else "")
             kind = "abort"
